@@ -26,6 +26,7 @@ def build(ctx):
     part_indent(ctx, eng)
     part_newline(ctx, eng)
     part_leading_blank(ctx, eng)
+    part_leading_whitespace(ctx, eng)
     validate(ctx)
 
 
@@ -423,6 +424,129 @@ def part_leading_blank(ctx, eng):
     eng.inline_only = None
 
 
+# ======================================================================================= (f) nothing is emitted for the leading whitespace of a file
+KF_LEAD = 'C08/leading-whitespace/format_missing-emits-a-newline-before-the-first-token'
+
+
+def part_leading_whitespace(ctx, eng):
+    """format_missing_{with,no}_indent(end) with nothing emitted yet (buffer empty) and only whitespace between the start of the *file*
+    and `end` must push no newline: else the emitted text starts with a blank line. Positions are symbolic: the file may start
+    anywhere in the source map (out-of-line modules), the visitor's cursor anywhere in the leading whitespace (skip_empty_lines
+    moves it past all-blank lines)."""
+    rp = make_replay(ctx, 'leading')
+    fmi = eng.find('format_missing_indent', self_ty='FmtVisitor', file='src/missed_spans.rs')
+    eng.lenient = True
+    eng.inline_only = [re.compile(r'src/config/config_type\.rs'), re.compile(r'Config::'), re.compile(r'format_missing_indent|format_missing_inner|push_vertical_spaces|output_at_start')]
+    ws = z3.Function('all_whitespace', z3.BitVecSort(32), z3.BitVecSort(32), z3.BoolSort())     # the source text in [lo, hi) is all whitespace
+    file_start, start, end = z3.BitVecs('file_start cursor end', 32)
+    nl = z3.BitVec('newlines_in_missing_text', 64)
+
+    def mk_sp(eng_, st_, args, ci):
+        return Tup([args[0], args[1]], 'Span2')
+
+    def snippet(eng_, st_, args, ci):
+        sp = args[1]
+        if not (isinstance(sp, Tup) and sp.name == 'Span2'):
+            raise Unsupported('snippet of %r' % (sp,))
+        return Tup([sp.items[0].items[0], sp.items[1].items[0]], 'Snippet')
+
+    def s_len(eng_, st_, args, ci):
+        v = deref(eng_, st_, args[0])
+        if isinstance(v, Tup) and v.name == 'Snippet':
+            return BV(z3.ZeroExt(32, v.items[1].e - v.items[0].e), 'usize')
+        raise Unsupported('len of %r' % (v,))
+
+    def s_trim(eng_, st_, args, ci):
+        return Tup([deref(eng_, st_, args[0])], 'Trimmed')
+
+    def s_is_empty(eng_, st_, args, ci):
+        v = deref(eng_, st_, args[0])
+        if isinstance(v, Tup) and v.name == 'Trimmed' and isinstance(v.items[0], Tup) and v.items[0].name == 'Snippet':
+            sn = v.items[0]
+            return ws(sn.items[0].e, sn.items[1].e)
+        if isinstance(v, StrVal) and v.s is not None:
+            return z3.BoolVal(v.s == '')
+        if isinstance(v, Tup) and v.name == 'BufferString':
+            return z3.BoolVal(not [t for t in st_.trace if t[0] == 'push_str'])
+        raise Unsupported('is_empty on %r' % (v,))
+
+    def push_str(eng_, st_, args, ci):
+        st_.trace.append(('push_str', deref(eng_, st_, args[1])))
+        return UNIT
+
+    def trailing(eng_, st_, args, ci):
+        if [t for t in st_.trace if t[0] == 'push_str']:
+            raise Unsupported('trailing newline count after a push')
+        return bv_const(0, 'usize')
+    def bp(eng_, st_, v):
+        v = deref(eng_, st_, v)
+        if isinstance(v, Tup) and len(v.items) == 1 and isinstance(v.items[0], BV):
+            return v.items[0].e
+        raise Unsupported('BytePos operand %r' % (v,))
+
+    def bp_cmp(eng_, st_, args, ci):
+        a, b = bp(eng_, st_, args[0]), bp(eng_, st_, args[1])
+        op = ci.func.rsplit('::', 1)[1]
+        return {'eq': a == b, 'ne': a != b, 'lt': z3.ULT(a, b), 'le': z3.ULE(a, b), 'gt': z3.UGT(a, b), 'ge': z3.UGE(a, b)}[op]
+    eng.stub(r'^<BytePos as Partial(Eq|Ord)>::(eq|ne|lt|le|gt|ge)$', bp_cmp, 'BytePos comparisons = unsigned comparison of the u32 inside (derived impls of rustc_span)')
+    eng.stub(r'^utils::mk_sp$|::mk_sp$', mk_sp, 'mk_sp(lo, hi) = the pair')
+    eng.stub(r'FmtVisitor::<.*>::snippet$', snippet, 'FmtVisitor::snippet(span) = the source text in [lo, hi) (named by its ends)')
+    eng.stub(r'<impl str>::len$', s_len, 'snippet.len() = hi - lo')
+    eng.stub(r'<impl str>::(trim|trim_end)$', s_trim, 'str::trim = structure')
+    eng.stub(r'<impl str>::is_empty$|String::is_empty$', s_is_empty, 'trimmed.is_empty() = all_whitespace(lo, hi) (uninterpreted predicate); buffer.is_empty() = nothing pushed yet')
+    eng.stub(r'count_newlines$', lambda e, s_, a, c: BV(nl, 'usize'), 'count_newlines(snippet) = symbolic')
+    eng.stub(r'FmtVisitor::<.*>::push_str$', push_str, 'FmtVisitor::push_str observed')
+    eng.stub(r'^<TakeWhile<Rev<Chars<.*>>, .*> as Iterator>::count$', trailing, 'trailing newlines of the (empty) buffer = 0')
+    eng.stub(r'<impl str>::repeat$', lambda e, s_, a, c: Tup([deref(e, s_, a[0]), a[1]], 'Repeat'), 'str::repeat(s, n) = structure')
+    eng.stub(r'FileLines::is_all$', lambda e, s_, a, c: z3.BoolVal(True), 'no --file-lines selection')
+    eng.stub(r'SnippetProvider::start_pos$', lambda e, s_, a, c: Tup([BV(file_start, 'u32')], 'BytePos'), 'SnippetProvider::start_pos() = start of the file in the source map (symbolic)')
+    eng.stub(r'Indent::to_string$', lambda e, s_, a, c: StrVal(s=''), 'block_indent is empty at the top level of a file')
+    eng.stub(r'write_snippet', lambda e, s_, a, c: (s_.trace.append(('write_snippet',)), UNIT)[1], 'write_snippet observed (comments / code in the missing text)')
+    for should_indent in (True, False):
+        st = State()
+        cfgref, cv = make_config(eng, st)
+        upper, lower = cv['blank_lines_upper_bound'].e, cv['blank_lines_lower_bound'].e
+        vis = Opaque('FmtVisitor', 'visitor')
+        fields = [n for n, _ in eng.src.struct_fields('FmtVisitor', 'src/visitor.rs')]
+        st.notes[('lazy', vis.ident, fields.index('config'))] = cfgref
+        st.notes[('lazy', vis.ident, fields.index('last_pos'))] = Tup([BV(start, 'u32')], 'BytePos')
+        st.notes[('lazy', vis.ident, fields.index('buffer'))] = Tup([], 'BufferString')
+        selfref = eng.ref_to(st, vis, True)
+        pre = [z3.ULE(file_start, start), z3.ULE(start, end), z3.ULT(end, 1 << 31), ws(file_start, end), ws(start, end), ws(end, end), ws(start, start),
+               z3.ULT(upper, LIM), z3.ULT(lower, LIM), z3.ULE(lower, upper), z3.ULT(nl, LIM)]
+        for a in pre:
+            st.assume(a)
+        outs = ctx.check_outcomes(eng.run(fmi, [selfref, Tup([BV(end, 'u32')], 'BytePos'), z3.BoolVal(should_indent)], st), 'format_missing_indent')
+        mv = [file_start, start, end, nl, upper, lower]
+        hint = [z3.ULT(x, 12) for x in mv]
+        for pi, o in enumerate(outs):
+            label = 'leading-whitespace/indent=%s/p%d' % (should_indent, pi)
+            if o.kind != 'ret':
+                ctx.prop(label + '/no-panic', o.state.pc, z3.BoolVal(True), mv, rp, twin=False, hint=hint)
+                continue
+            bad = []
+            for t in o.state.trace:
+                if t[0] == 'write_snippet':
+                    bad.append(z3.BoolVal(True))
+                if t[0] != 'push_str':
+                    continue
+                v = t[1]
+                if isinstance(v, Tup) and v.name == 'Repeat' and isinstance(v.items[0], StrVal) and v.items[0].s == '\n':
+                    bad.append(v.items[1].e != 0)
+                elif isinstance(v, StrVal) and v.s is not None:
+                    bad.append(z3.BoolVal('\n' in v.s))
+                elif isinstance(v, Tup) and v.name == 'Trimmed':
+                    bad.append(z3.BoolVal(False))         # trim_end of the empty last snippet
+                else:
+                    bad.append(z3.BoolVal(True))
+            viol = z3.Or(bad) if bad else z3.BoolVal(False)
+            # open class: the cursor or the file is not at source-map position 0 (the guard in the code compares with BytePos(0))
+            ctx.prop(label + '/no-newline-is-emitted-before-the-first-token', o.state.pc, viol, mv, rp, classes=[(KF_LEAD, z3.Or(start != 0, file_start != 0))], hint=hint)
+    eng.stubs = []
+    eng.lenient = False
+    eng.inline_only = None
+
+
 # ----------------------------------------------------------------------------- native
 
 def cli_findings():
@@ -456,6 +580,20 @@ def cli_findings():
         out = run(lead + '// first comment\nfn a() {}\n', 'max_width=100')
         if out.startswith('\n') or out.startswith(' '):
             found.setdefault('other', []).append('output starts with a blank line for leading %r: %r' % (lead, out[:20]))
+    # leading whitespace before the first token: blank lines then an indented token; an out-of-line module that starts with spaces
+    for lead in ('  ', '\n\n  ', ' \n\t', '\n    '):
+        out = run(lead + 'fn a() {}\n', 'max_width=100')
+        if out.startswith('\n') or out.startswith(' '):
+            found.setdefault('C08/leading-whitespace/format_missing-emits-a-newline-before-the-first-token', []).append('stdin-like file with leading %r: output starts %r' % (lead, out[:12]))
+    sub = os.path.join(d, 'sub')
+    os.makedirs(sub, exist_ok=True)
+    open(os.path.join(sub, 'main.rs'), 'w').write('mod foo;\n')
+    for lead in ('  ', '\n  '):
+        open(os.path.join(sub, 'foo.rs'), 'w').write(lead + 'fn a() {}\n')
+        r = subprocess.run([rf, '--emit', 'stdout', os.path.join(sub, 'main.rs')], capture_output=True, env=run_env(), timeout=60)
+        m = re.search(r'foo\.rs:\n\n(.*?)(?=\n/|\Z)', r.stdout.decode('utf-8', 'replace'), re.S)
+        if m and (m.group(1).startswith('\n') or m.group(1).startswith(' ')):
+            found.setdefault('C08/leading-whitespace/format_missing-emits-a-newline-before-the-first-token', []).append('out-of-line module file with leading %r: its output starts %r' % (lead, m.group(1)[:12]))
     # indentation
     for ht in ('true', 'false'):
         for ts in (2, 4, 8):
